@@ -232,5 +232,9 @@ def build(tier, seed):
            bounds="all 35 x 35 ordered pairs of the pool vs the documented relation")
     mt.obs.append(type(mt.obs[0])(name="unlinked", module=mt.key, kind="nat", timeout=60, bounds="required / optional unlinked destination field x policy",
                                   family="unlinked destination fields (labelled enumeration)"))
+    from props.C13 import build as build_c13
+    for m13 in build_c13(tier, seed).modules:
+        m13.obs = [o for o in m13.obs if o.name == "history"]         # a refused pair stays refused whatever was requested before
+        mods.append(m13)
     return Plan("C14", mods + [mt], assumptions=["conforms() is the structural typing semantics of the pool types"],
                 bounds={"pool": "35 types", "values": "see obligations"}, outside=["type terms outside the pool", "user coercers"])
